@@ -247,8 +247,11 @@ type scanCase struct {
 	rowCells [][]string // GetAll: the cells of every row
 }
 
-var foreignNames = []string{"0", "1", "7", "+2", "id", "name", "x", "count(*)", "_sqlair_", "_sqlair_x", "_sqlair_-1", "_SQLAIR_0", "sqlair_0", "_sqlair_1x", "col", ""}
-var aliasLike = []string{"_sqlair_+0", "_sqlair_00", "_sqlair_-0", "_sqlair_01"}
+var foreignNames = []string{"0", "1", "7", "+2", "id", "name", "x", "count(*)", "_sqlair_", "_sqlair_x", "_sqlair_-1", "_SQLAIR_0", "sqlair_0", "_sqlair_1x", "col", "",
+	// numbers no int holds (strconv.Atoi: value out of range): not aliases
+	"_sqlair_9223372036854775808", "_sqlair_18446744073709551615", "_sqlair_18446744073709551616", "_sqlair_99999999999999999999",
+	"_sqlair_-9223372036854775809", "_sqlair_9223372036854775808000", "_sqlair_12345678901234567890"}
+var aliasLike = []string{"_sqlair_+0", "_sqlair_00", "_sqlair_-0", "_sqlair_01", "_sqlair_000000000000000000000000", "_sqlair_+00000000000000000000001"}
 
 // colScript builds the columns and the row for a statement with n outputs.
 func colScript(mode int, seed uint64, n int) (cols []string, row []driver.Value, cells []string) {
@@ -459,8 +462,10 @@ func (sg *scanGen) sliceDestFor(env *typeEnv, name string) allDest {
 	}
 	p := reflect.New(st)
 	n := r.intn(3)
-	sl := reflect.MakeSlice(st, 0, n+r.intn(3))
-	for i := 0; i < n; i++ {
+	// spare capacity that is NOT zero: the slice is a prefix of a longer, filled one (a recycled buffer)
+	hidden := r.intn(4)
+	sl := reflect.MakeSlice(st, 0, n+hidden)
+	for i := 0; i < n+hidden; i++ {
 		el := reflect.New(st.Elem()).Elem()
 		switch el.Kind() {
 		case reflect.Pointer:
@@ -474,7 +479,7 @@ func (sg *scanGen) sliceDestFor(env *typeEnv, name string) allDest {
 		}
 		sl = reflect.Append(sl, el)
 	}
-	p.Elem().Set(sl)
+	p.Elem().Set(sl.Slice(0, n))
 	return allDest{ptr: p, prior: n, sexp: sx}
 }
 
